@@ -1,8 +1,8 @@
 //! AVL tree runner (both index widths), generic in the key/value types.
 use crate::util::*;
 use crate::Case;
-use stevia::collections::avl_tree::Node;
-use stevia::collections::u8_avl_tree::U8Node;
+use stevia::collections::avl_tree::{Allocator, Node};
+use stevia::collections::u8_avl_tree::{U8Allocator, U8Node};
 use stevia::collections::{AVLTree, AVLTreeMut, U8AVLTree, U8AVLTreeMut};
 
 fn fmt_opt(tag: char, v: Option<i128>) -> String {
@@ -13,14 +13,20 @@ fn fmt_opt(tag: char, v: Option<i128>) -> String {
 }
 
 macro_rules! avl_runner {
-    ($fname:ident, $Mut:ident, $Ro:ident, $Node:ident, $idx:ty) => {
+    ($fname:ident, $Mut:ident, $Ro:ident, $Node:ident, $Alloc:ident, $idx:ty) => {
         pub fn $fname<K: Scalar + PartialOrd, V: Scalar>(case: &Case, full: bool, fill: u8, out: &mut String) {
             let toks: Vec<&str> = case.header.iter().map(|s| s.as_str()).collect();
             let mode = kv(&toks, "mode").unwrap_or("persistent".into());
             let hdr = $Mut::<K, V>::data_len(0);
             let rec = $Mut::<K, V>::data_len(1) - hdr;
-            let align = std::mem::align_of::<$Node<K, V>>().max(4.min(std::mem::size_of::<$idx>() * 4));
-            let okp = move |a: usize| a % align == 0;
+            // the alignment the documented format implies, NOT what the crate's types happen to ask for:
+            // the header is words of the index width, a record is key, value and links of the index
+            // width - nothing stricter, so that relocation also visits odd addresses where the format
+            // allows it and a header or node type that silently asks for more is noticed (the open panics)
+            let halign = std::mem::size_of::<$idx>();
+            let nalign = halign.max(std::mem::align_of::<K>()).max(std::mem::align_of::<V>());
+            let _ = (std::mem::align_of::<$Alloc>(), std::mem::align_of::<$Node<K, V>>());
+            let okp = move |a: usize| a % halign == 0 && (a + hdr) % nalign == 0;
             let mut phase = 0usize;
             let mut buf;
             if let Some(raw) = kv(&toks, "raw") {
@@ -202,8 +208,8 @@ macro_rules! avl_runner {
     };
 }
 
-avl_runner!(run32, AVLTreeMut, AVLTree, Node, u32);
-avl_runner!(run8, U8AVLTreeMut, U8AVLTree, U8Node, u8);
+avl_runner!(run32, AVLTreeMut, AVLTree, Node, Allocator, u32);
+avl_runner!(run8, U8AVLTreeMut, U8AVLTree, U8Node, U8Allocator, u8);
 
 pub fn run(case: &Case, full: bool, fill: u8, out: &mut String) {
     let toks: Vec<&str> = case.header.iter().map(|s| s.as_str()).collect();
@@ -227,6 +233,8 @@ pub fn run(case: &Case, full: bool, fill: u8, out: &mut String) {
         "i64u16" => go!(i64, u16),
         "u8u8" => go!(u8, u8),
         "u16u16" => go!(u16, u16),
+        "u128u64" => go!(u128, u64),
+        "f64u64" => go!(f64, u64),
         "ckey" => go!(CKey, u64),
         other => panic!("unknown layout {}", other),
     }
